@@ -1,4 +1,5 @@
 import LapyVerif.Props.C13
+import LapyVerif.Bridge.Measures2
 import LapyVerif.Bridge.Measures
 import LapyVerif.Props.C13b
 /- axiom audit of C13 -/
@@ -32,3 +33,12 @@ import LapyVerif.Props.C13b
 #print axioms LapyVerif.Props.C13.vector_area_zero
 #print axioms LapyVerif.Props.C13.volume_translation_inv
 #print axioms LapyVerif.Props.C13.volume_translation_inv'
+#print axioms LapyVerif.Bridge.meas_centroid_x
+#print axioms LapyVerif.Bridge.meas_centroid_y
+#print axioms LapyVerif.Bridge.meas_centroid_z
+#print axioms LapyVerif.Bridge.meas_centroid
+#print axioms LapyVerif.Bridge.normalize_head
+#print axioms LapyVerif.Bridge.gen_normalized_x
+#print axioms LapyVerif.Bridge.gen_normalized_y
+#print axioms LapyVerif.Bridge.gen_normalized_z
+#print axioms LapyVerif.Bridge.meas_normalized
